@@ -463,6 +463,22 @@ def run_check(prop, tier, seed, replay=None):
             if a.split(".")[-1] not in ALLOWED_AXIOMS and a not in ALLOWED_AXIOMS:
                 broken.append(("axiom", "theorem depends on non-standard axiom %s" % a))
 
+    # independent re-check of the compiled development (thorough tier of the designated property only)
+    coqchk_note = None
+    if ok and tier == "thorough" and prop == "C14" and not replay:
+        mods = " ".join("Verif.Props." + f[:-2] for f in sorted(os.listdir(os.path.join(COQ, "Props"))) if f.endswith(".vo"))
+        rc, out = sh("timeout 3000 coqchk -silent -o -Q . Verif %s" % mods, cwd=COQ, timeout=3100)
+        log.append("== coqchk rc=%d\n%s" % (rc, out[-3000:]))
+        m = re.search(r"\* Axioms:(.*?)\n\s*\n\* ", out, re.S)
+        ax = m.group(1).strip() if m else "?"
+        coqchk_note = "coqchk -o over %d Props modules: rc=%d, axioms: %s" % (len(mods.split()), rc, " ".join(ax.split()))
+        if rc != 0:
+            broken.append(("proof", "coqchk failed: " + out[-600:]))
+        elif ax not in ("<none>",):
+            for a in re.findall(r"[A-Za-z_][\w.']*", ax):
+                if a.split(".")[-1] not in ALLOWED_AXIOMS and a not in ALLOWED_AXIOMS:
+                    broken.append(("axiom", "coqchk reports non-standard axiom %s" % a))
+
     # driver
     drv_err = None
     try:
@@ -524,7 +540,7 @@ def run_check(prop, tier, seed, replay=None):
         "harness/gen_tables.py and harness/py2v.py (regenerate coq/Gen/*.v from /repo/src)",
         "harness/engine.py + harness/drv_%s.py (implementation driver, canonicalisation, case writer, output parser)" % prop,
         "CPython 3.12, cryptojwt, cryptography, urllib, json as used by the implementation",
-    ] + ctx.extra_trusted
+    ] + ctx.extra_trusted + ([coqchk_note] if coqchk_note else [])
     evidence = {
         "property_id": prop, "tier": tier, "seed": seed, "level": "proof",
         "coverage": {
